@@ -61,6 +61,11 @@ VEC = {
     "inner": lambda p, q: b.inner(p, q), "qvmul": lambda q, v: b.qvmul(q, v),
     "vvmul": lambda p, q: b.vvmul(p, q), "qpow": lambda q: b.qpow(q, 2), "q2r": lambda q: b.q2r(q),
     "slerp": lambda p, q: b.slerp(p, q, 0.3), "matrix": lambda q: b.matrix(q),
+    # second end point in the opposite hemisphere, shorter arc requested
+    "slerp(shortest)": lambda p, q: b.slerp(p, -np.asarray(q, dtype=float).ravel(), 0.3, shortest=True),
+    "qpow(-3)": lambda q: b.qpow(q, -3),
+    "trexp(theta=)": lambda v: b.trexp(b.unittwist(np.asarray(v, dtype=float).ravel()), 0.7) if np.size(v) == 6 else b.trexp(v, 0.7),
+    "trexp2(theta=)": lambda v: b.trexp2(b.unittwist2(np.asarray(v, dtype=float).ravel()), 0.7) if np.size(v) == 3 else b.trexp2(np.sign(np.asarray(v, dtype=float).ravel()) if np.size(v) == 1 else v, 0.7),
     "dot": lambda q, w: b.dot(q, w), "dotb": lambda q, w: b.dotb(q, w), "angle": lambda p, q: b.angle(p, q),
     "isequal": lambda p, q: b.isequal(p, q), "q2v": lambda q: b.q2v(q), "v2q": lambda v: b.v2q(v),
     "SO3.RPY": lambda v: SO3.RPY(v), "SO3.Eul": lambda v: SO3.Eul(v), "SO3.AngVec": lambda v: SO3.AngVec(0.3, v),
@@ -127,18 +132,39 @@ UNIT_IN = {
     "Twist3.Rz": lambda u: Twist3.Rz(U(u), unit=u), "getunit": lambda u: b.getunit(U(u), u),
 }
 
-# output-angle entries: f(unit) returns angles in `unit`; deg result must be rad result * 180/pi
+# output-angle entries: f(unit, R, T, H, order) returns angles in `unit`; deg must be rad * 180/pi
+def _cfg(cfg, order):
+    """rotation in the requested configuration of the RPY order / Euler / axis-angle extraction"""
+    import gamma
+    hp = math.pi / 2
+    if cfg == "generic":
+        R = R3
+    elif cfg in ("singular+", "singular-"):
+        sgn = 1.0 if cfg == "singular+" else -1.0
+        R = b.rpy2r(0.3, sgn * hp, -0.4, order=order)       # pitch = +-90 degrees in this order
+    elif cfg == "zero":
+        R = np.eye(3)
+    else:
+        R = gamma.rotz(0.5) @ gamma.rotx(math.pi) @ gamma.rotz(-0.5)
+    th = {"generic": 0.4, "singular+": hp, "singular-": -hp, "zero": 0.0, "half-turn": math.pi}[cfg]
+    return R, b.rt2tr(R, [1.0, 2.0, 3.0]), b.trot2(th, t=[1, 2])
+
+
+def _ok(order, name):
+    return {"order": order} if name in ("tr2rpy", "SO3.rpy", "SE3.rpy", "UnitQuaternion.rpy") else {}
+
+
 UNIT_OUT = {
-    "tr2rpy": lambda u: b.tr2rpy(T3, unit=u), "tr2eul": lambda u: b.tr2eul(T3, unit=u),
-    "tr2angvec": lambda u: b.tr2angvec(T3, unit=u)[0], "tr2xyt": lambda u: b.tr2xyt(T2, unit=u)[2],
-    "SO3.rpy": lambda u: SO3(R3).rpy(unit=u), "SO3.eul": lambda u: SO3(R3).eul(unit=u),
-    "SO3.angvec": lambda u: SO3(R3).angvec(unit=u)[0], "SE3.rpy": lambda u: SE3(T3).rpy(unit=u),
-    "SE3.eul": lambda u: SE3(T3).eul(unit=u), "SE3.angvec": lambda u: SE3(T3).angvec(unit=u)[0],
-    "SO2.theta": lambda u: SO2(0.4).theta(unit=u), "SE2.theta": lambda u: SE2(1, 2, 0.4).theta(unit=u),
-    "SE2.xyt": lambda u: SE2(1, 2, 0.4).xyt(unit=u)[2] if _has_unit(SE2.xyt) else None,
-    "UnitQuaternion.rpy": lambda u: UnitQuaternion(SO3(R3)).rpy(unit=u),
-    "UnitQuaternion.eul": lambda u: UnitQuaternion(SO3(R3)).eul(unit=u),
-    "UnitQuaternion.angvec": lambda u: UnitQuaternion(SO3(R3)).angvec(unit=u)[0],
+    "tr2rpy": lambda u, R, T, H, o: b.tr2rpy(T, unit=u, order=o), "tr2eul": lambda u, R, T, H, o: b.tr2eul(T, unit=u),
+    "tr2angvec": lambda u, R, T, H, o: b.tr2angvec(T, unit=u)[0], "tr2xyt": lambda u, R, T, H, o: b.tr2xyt(H, unit=u)[2],
+    "SO3.rpy": lambda u, R, T, H, o: SO3(R).rpy(unit=u, order=o), "SO3.eul": lambda u, R, T, H, o: SO3(R).eul(unit=u),
+    "SO3.angvec": lambda u, R, T, H, o: SO3(R).angvec(unit=u)[0], "SE3.rpy": lambda u, R, T, H, o: SE3(T).rpy(unit=u, order=o),
+    "SE3.eul": lambda u, R, T, H, o: SE3(T).eul(unit=u), "SE3.angvec": lambda u, R, T, H, o: SE3(T).angvec(unit=u)[0],
+    "SO2.theta": lambda u, R, T, H, o: SO2(H[:2, :2]).theta(unit=u), "SE2.theta": lambda u, R, T, H, o: SE2(H).theta(unit=u),
+    "SE2.xyt": lambda u, R, T, H, o: SE2(H).xyt(unit=u)[2] if _has_unit(SE2.xyt) else None,
+    "UnitQuaternion.rpy": lambda u, R, T, H, o: UnitQuaternion(SO3(R)).rpy(unit=u, order=o),
+    "UnitQuaternion.eul": lambda u, R, T, H, o: UnitQuaternion(SO3(R)).eul(unit=u),
+    "UnitQuaternion.angvec": lambda u, R, T, H, o: UnitQuaternion(SO3(R)).angvec(unit=u)[0],
 }
 
 
@@ -170,13 +196,30 @@ SCALARS = {
 }
 
 
-def _mats():
-    R = b.rotx(0.3) @ b.roty(-0.5) @ b.rotz(1.1)
-    T = b.rt2tr(R, [1.0, -2.0, 0.5])
+def _mats(kind="generic"):
+    import gamma
+    t = [1.0, -2.0, 0.5]
+    if kind == "generic":
+        R, P = b.rotx(0.3) @ b.roty(-0.5) @ b.rotz(1.1), b.rot2(0.4)
+    elif kind == "identity":
+        R, P, t = np.eye(3), np.eye(2), [0.0, 0.0, 0.0]
+    elif kind == "translation":
+        R, P = np.eye(3), np.eye(2)
+    elif kind == "quarter-turn":
+        R, P = gamma.roty(math.pi / 2), gamma.rotz(math.pi / 2)[:2, :2]
+    elif kind == "half-turn":
+        R, P = gamma.rotx(math.pi), gamma.rotz(math.pi)[:2, :2]
+    elif kind == "half-turn-diag":
+        u = np.array([0.6, 0.0, 0.8])
+        R, P = 2 * np.outer(u, u) - np.eye(3), gamma.rotz(-math.pi)[:2, :2]
+    elif kind == "tiny-angle":
+        R, P = gamma.rotz(1e-10) @ gamma.rotx(-2e-10), gamma.rotz(1e-10)[:2, :2]
+    else:
+        raise ValueError(kind)
+    T = b.rt2tr(R, t)
     R1 = b.rotx(-0.2) @ b.rotz(0.7)
     T1 = b.rt2tr(R1, [0.5, 0.25, -1.0])
-    P = b.rot2(0.4)
-    H = b.rt2tr(P, [1.0, 2.0])
+    H = b.rt2tr(P, t[:2])
     return dict(R=R, T=T, R1=R1, T1=T1, P=P, H=H, pts3=np.array([[1., 2, 3, 4], [0, 1, 0, -1], [2, 2, 2, 2]]),
                 pts2=np.array([[1., 2, 3], [0, 1, -1]]), so3=b.skew([0.1, 0.2, 0.3]),
                 se3=b.skewa([1, 2, 3, 0.1, 0.2, 0.3]), se2=b.skewa([1, 2, 0.3]), t=np.array([1.0, 2.0, 3.0]))
